@@ -1,5 +1,5 @@
 //! C11 — palettes decode correctly; indexed files need a complete palette.
-use crate::encode::{encode, Plan};
+use crate::encode::{encode, finish_chunk, legacy_chunk, Plan, Rng};
 use crate::gen::{build_plan, build_sprite, GenCfg, Tape};
 use crate::model::*;
 use crate::runner::*;
@@ -213,6 +213,45 @@ pub fn check(tape: &[u32]) -> CheckResult {
                     })?;
                     compare_palette(&s, &f).map_err(|e| e.with(detail()))?;
                     o.labels.push("legacy-kind-sibling-alive".into());
+                }
+            }
+            // a file that carries BOTH legacy kinds (no new palette): whichever chunk a reader lets win, it has to be
+            // decoded by its own kind's rule
+            if let (Some(l), None, true) = (&s.legacy, &s.palette, s.fmt != Fmt::Indexed) {
+                if tape.len() % 3 == 0 {
+                    let other = if l.kind == 0x0004 { 0x0011 } else { 0x0004 };
+                    let n2 = 1 + (tape.len() % 40);
+                    let l2 = LegacyPalette { kind: other, packets: vec![LegacyPacket { skip: (tape.len() % 3) as u8, colors: (0..n2).map(|k| { let v = (k * 37 + tape.len()) as u32; if other == 0x0011 { [(v % 64) as u8, ((v / 3) % 64) as u8, ((v / 7) % 64) as u8] } else { [v as u8, (v / 3) as u8, 200] } }).collect() }] };
+                    let mut p = super::robust::to_pieces(&enc);
+                    let c2 = finish_chunk(legacy_chunk(&l2), 0, &mut Rng(1)).bytes;
+                    let mut done = false;
+                    for fr in p.frames.iter_mut() {
+                        if let Some(pos) = fr.1.iter().position(|ch| ch.len() >= 6 && (ch[4..6] == 0x0004u16.to_le_bytes() || ch[4..6] == 0x0011u16.to_le_bytes())) {
+                            // the sprite user data record (if any) stays with the first chunk: put the second one
+                            // after the records that follow it
+                            let mut at = pos + 1;
+                            while at < fr.1.len() && fr.1[at].len() >= 6 && fr.1[at][4..6] == 0x2020u16.to_le_bytes() {
+                                at += 1;
+                            }
+                            fr.1.insert(at, c2.clone());
+                            done = true;
+                            break;
+                        }
+                    }
+                    if done {
+                        let b2 = super::robust::assemble(&p, true);
+                        let f2 = AsepriteFile::read(&b2[..]).map_err(|e| Failure::new("load-error", format!("file with both legacy palette kinds failed to load: {}", e)).with(detail()))?;
+                        let mut s2 = s.clone();
+                        s2.legacy = Some(l2.clone());
+                        if compare_palette(&s, &f2).is_err() {
+                            compare_palette(&s2, &f2).map_err(|mut e| {
+                                e.signature = format!("two-legacy-kinds:{}", e.signature);
+                                e.msg = format!("file with a {:#06x} chunk followed by a {:#06x} chunk: the palette is neither chunk decoded by its own kind ({})", l.kind, other, e.msg);
+                                e.with(json!({"input_hex": if b2.len() < 8000 { hex(&b2) } else { String::new() }}))
+                            })?;
+                        }
+                        o.labels.push("both-legacy-kinds".into());
+                    }
                 }
             }
             if let Some(l) = &s.legacy {
